@@ -13,7 +13,7 @@ META = {
                   'xrspatial.proximity._process (closure _process_dask)', 'xrspatial.utils.get_dataarray_resolution'],
     'bounds': {'quick': '3x4 raster with non-square cells (dx=1, dy=2): every chunk grid (4 x 8 = 32) x every position of one symbolic cell (target iff non-zero finite, decided by the '
                         'solver; all other cells 0) x max_distance in {1, 2}; unbounded max_distance (single-block fallback) for every grid; 2x3 raster with all cells symbolic for every grid '
-                        '(8) and max_distance 1 (float64; int32 for two grids); proximity, allocation and direction compared cell by cell with the NumPy-backed call',
+                        '(8) and max_distance 1 (float64; int32 for two grids); joint evaluation of proximity / allocation / direction and of two max_distance values in one dask.compute (2 grids); square cells without a res attribute; dimensions named lat / lon; proximity, allocation and direction compared cell by cell with the NumPy-backed call',
                'thorough': 'two symbolic cells (all 66 pairs) on 3x4 for every grid, MANHATTAN, descending coordinates, max_distance 0.5 and 3'},
     'stubs': ['dask.array = sx.symda contract shim (map_overlap with per-axis depth, NaN boundary, minimum-chunk-size merging ported from dask; validated against real dask by replay)'],
     'outside': ['dask schedulers / worker counts', 'halo larger than the raster extent (dask limitation, excluded by the property)', 'rasters larger than the bound'],
@@ -51,6 +51,8 @@ def jobs(tier, seed):
                     'dims': ['lat', 'lon']})
     for gi, (cy, cx) in enumerate([((1, 1), (1, 2)), ((2,), (2, 1))]):
         out.append({'name': 'all-symbolic-2x3-int32-g%d' % gi, 'shape': [2, 3], 'chunks': [list(cy), list(cx)], 'maxd': 1.0, 'sym': 'all', 'metric': 'EUCLIDEAN', 'dy': -1.0, 'dtype': 'int32'})
+    for gi, (cy, cx) in enumerate([((1, 2), (2, 2)), ((3,), (1, 3))]):
+        out.append({'name': 'joint-3x4-g%d' % gi, 'shape': [3, 4], 'chunks': [list(cy), list(cx)], 'maxd': 2.0, 'sym': [[0, 1], [2, 3]], 'metric': 'EUCLIDEAN', 'dy': 2.0, 'joint': True})
     if tier != 'quick':
         allc = cells((h, w))
         pairs = [(p, q) for i, p in enumerate(allc) for q in allc[:i]]
@@ -81,6 +83,21 @@ def body(ctx, job):
     if job.get('tv'):
         kw['target_values'] = [ctx.real('target_value')]
     chunks = job['chunks']
+    if job.get('joint'):
+        # the three outputs for one raster, and the same output for two max_distance values, evaluated together in one graph
+        dn = ('y', 'x')
+        a_np = raster(data.copy(), dims=dn, ys=ys, xs=xs, name='r')
+        a_da = raster(data.copy(), dims=dn, ys=ys, xs=xs, name='r', chunks=chunks)
+        kw2 = dict(kw, max_distance=1.0)
+        plan = [('proximity', kw), ('allocation', kw), ('direction', kw), ('proximity', kw2)]
+        refs = [vals(ctx.call('proximity:' + fn, a_np, 'x', 'y', **k)) for fn, k in plan]
+        got = ctx.call_joint([('proximity:' + fn, (a_da, 'x', 'y'), k) for fn, k in plan])
+        for (fn, k), ref, g in zip(plan, refs, got):
+            out = vals(g)
+            for c in cells((h, w)):
+                ctx.check(fn + '-computed-together-equals-numpy', ctx.close(out[c], ref[c], TOL32),
+                          info=lambda m, c=c, fn=fn, out=out, ref=ref: {'fn': fn, 'cell': list(c), 'dask_joint': ctx.ev(m, out[c]), 'numpy': ctx.ev(m, ref[c])})
+        return
     for fn in ('proximity', 'allocation', 'direction'):
         dn = tuple(job.get('dims', ('y', 'x')))
         a_np = raster(data.copy(), dims=dn, ys=ys, xs=xs, name='r')
